@@ -37,9 +37,9 @@ def build_code(method, perm_seed, as_list):
     return DAGCode({p.name: p for p in phases}, method["initial"])
 
 
-def emit(method, target, perm_seed, as_list):
+def emit(method, target, perm_seed, as_list, code=None):
     try:
-        code = build_code(method, perm_seed, as_list)
+        code = code if code is not None else build_code(method, perm_seed, as_list)
         if target == "python":
             from dagrt.codegen.python import CodeGenerator
             return CodeGenerator("Stepper")(code)
@@ -86,6 +86,15 @@ def worker(inp, outp):
             text = emit(m, target, 0, False)
             out.append({"prog": j, "target": target, "cfg": "seed=%s perm=0 list=False again" % os.environ.get("PYTHONHASHSEED"),
                         "text": text})
+        # ONE description object handed to several generator objects in turn (generation must not change it)
+        try:
+            shared = build_code(m, 0, False)
+        except Exception:
+            shared = None
+        if shared is not None:
+            for rnd, target in enumerate(("python", "fortran", "python", "interp", "fortran")):
+                out.append({"prog": j, "target": target, "cfg": "seed=%s same description object, use %d" % (
+                    os.environ.get("PYTHONHASHSEED"), rnd + 1), "text": emit(m, target, 0, False, code=shared)})
     with open(outp, "w") as f:
         json.dump(out, f)
 
